@@ -10,7 +10,14 @@ with boundary nodes, power spaces, matrix-field spaces, non-power products)
 x points.  Three-step chains around an argument scaling
 (translation -> scaling, scaling -> translation, (f + c) -> scaling,
 perturbation -> scaling; innermost functional linear in half of the cases)
-are drawn on purpose (depth 3).
+are drawn on purpose (depth 3).  Further strata hit by construction:
+power-type separable sums ``SeparableSum(f, n)`` / the same functional
+object listed n times / a non-power separable sum in which one object
+occurs twice (bare or under one derivation rule), each with pairwise
+distinct per-summand steps given as list / tuple / array; a non-constant
+point-wise step (space element) for every case; scaling by zero
+(``f * 0``, ``0 * f``); functionals wired from caller-supplied callables
+(``simple_functional``).
 
 Oracle (clauses):
   fy          f(x) + f*(y) >= <x, y> on random pairs (inf allowed)
@@ -27,6 +34,21 @@ Oracle (clauses):
               convexity
   biconj      f** = f
   moreau      prox_{s f}(x) + s prox_{f*/s}(x/s) = x whenever both exist
+  moreau-conj the same for the conjugate as a functional of its own, i.e.
+              for the pair (f*, f**)
+  moreau-seq  SeparableSum with one step per summand (documented): the
+              decomposition holds summand by summand
+  prox-parts  ... and component i of both proximals is the proximal of
+              summand i (resp. of its conjugate) with step s_i (1/s_i)
+  prox-seq-const  a scalar step equals the constant step sequence
+  moreau-pointwise  one step per point (space element), wherever both
+              proximal factories take it: p1 + s.p2(x/s) = x entry-wise
+  prox-pointwise-slice  for functionals that are sums over the points, the
+              entries with step v equal those of the proximal with the
+              scalar step v (both for f and for f*)
+  sepsum-getitem  h[i] is summand i, h[1:] the separable sum of the rest
+              (values and conjugate values)
+  fy-eq-libgrad-conj  equality at x = (f*).gradient(y)
   sup         f*(y) against sup_z <y,z> - f(z) by Nelder-Mead for smooth
               functionals in dimension <= 3
   param-snapshot
@@ -36,6 +58,7 @@ Oracle (clauses):
               gradient and both proximals must all be unchanged or all
               follow (noted); a mix is a violation
   not-offered conjugates documented as not implemented / not defined raise
+              (negative left scaling: the proximal raises as well)
 """
 import numpy as np
 from hypothesis import strategies as st
@@ -84,7 +107,9 @@ TOLERANCES = {
     'equality': '|f(x)+f*(y)-<x,y>| <= same tolerance (+ 1e-8*gap(y0) when '
                 'the sub-gradient had to be pulled inside dom f* by 1e-8, '
                 'bound from convexity of f*)',
-    'conj_value': '|f*(y)-ref| <= 512*eps*n*(1+|ref|+sum w(|y|+y^2)) + the '
+    'conj_value': '(at the generated y and at every reference sub-gradient '
+                  'used by fy-eq-ref) '
+                  '|f*(y)-ref| <= 512*eps*n*(1+|ref|+sum w(|y|+y^2)) + the '
                   'change of the reference under a 32-ulp input '
                   'perturbation (conditioning next to the boundary); '
                   'finiteness is asserted only for points whose reference '
@@ -107,6 +132,14 @@ TOLERANCES = {
                          'at sparse points (zeros planted at every second '
                          'position, in all components of vector fields; x = 0; '
                          'x = translation)',
+    'steps': 'non-scalar steps (moreau-seq, moreau-pointwise, moreau-conj, '
+             'prox-parts, prox-seq-const, prox-pointwise-slice): the moreau '
+             'tolerance with s replaced by the entry-wise step, i.e. factor '
+             'max(1, max s, 1/min s) and s*|p2| taken entry-wise; the '
+             'comparisons with scalar-step proximals use the same bound (a '
+             'wrong step changes the result by O(|s_i - s_j|) >= 5e-2)',
+    'sepsum_getitem': '|h[i](x_i) - f_i(x_i)|, |h[1:](x[1:]) - sum| <= '
+                      '512*eps*n*(1+|value|); equal infinities are equal',
     'param_snapshot': 'observations before / after / rebuilt compared with '
                       'rtol 1e-10, atol 1e-13 (nan == nan)',
     'sup_oracle': '|f*(y) - sup| <= 1e-6*(1+|f*(y)|), only when Nelder-Mead '
@@ -125,8 +158,17 @@ ASSUMPTIONS = [
     'the value of an InfimalConvolution cannot be evaluated through the '
     'API; only its conjugate is compared with the reference f*+g*',
     'space dimension <= 12',
+    'a point-wise step (space element) is asserted only where BOTH proximal '
+    'factories accept it (TypeError from float(sigma) = scalar steps only, '
+    'counted as steps:pointwise-not-offered); per-summand step sequences '
+    'are documented for SeparableSum and must be accepted there',
+    '0 * f only for f finite on the whole space, f * 0 only for finite f(0)',
+    'step clauses are skipped in the region of the known Huber vector-field '
+    'proximal crash (C08-K5, reported by the scalar Moreau clause)',
 ]
-RULE = ('Hypothesis draws (space, functional expression tree, x, y, sigma); '
+RULE = ('Hypothesis draws (space, functional expression tree, x, y, sigma, '
+        'per-summand step sequence with pairwise distinct entries + its '
+        'container type, non-constant point-wise step vector); '
         'points are mapped into dom f / dom f* by bisection on the reference '
         'domain residual; non-trivial = at least one clause compared two '
         'finite sides AND (derived functional or non-default space); '
@@ -150,6 +192,14 @@ REQUIRED_STRATA = [
     'cls:IndicatorNuclearNormUnitBall', 'cls:LinearForm',
     'chain:trans-scale', 'chain:scale-trans', 'chain:sum-scale',
     'chain:pert-scale', 'linear:flagged',
+    'clause:moreau-conj', 'clause:moreau-seq', 'clause:prox-parts',
+    'clause:prox-seq-const', 'clause:moreau-pointwise',
+    'clause:prox-pointwise-slice', 'clause:sepsum-getitem',
+    'clause:fy-eq-libgrad-conj',
+    'steps:seq-list', 'steps:seq-tuple', 'steps:seq-array',
+    'steps:seq-repeated-object', 'steps:pointwise',
+    'steps:pointwise-not-offered', 'region:sepsum=shared-object',
+    'region:zero=left', 'region:zero=right', 'cls:Simple',
 ]
 
 
@@ -170,15 +220,52 @@ def _strategy(draw, tier):
         sd = draw(Z.matrix_space_descs())
     else:
         sd, fd = draw(Z.product_space_with_funcs('conj'))
+        if len(sd['parts']) == 3 and draw(st.integers(0, 2)) == 0 and \
+                Z.wtype(sd['parts'][0]) != 'array':
+            # aliasing stratum: one and the same functional object occurs
+            # twice among the summands (first and last part made equal;
+            # not for array weightings, which compare by identity, so that
+            # two separately built parts are different spaces)
+            sd['parts'][2] = sd['parts'][0]
+            fd['parts'][2] = fd['parts'][0]
+            fd['share'] = [[0, 2]]
     if pick != 'product':
         depth = draw(st.sampled_from([0, 1, 1, 2, 2, 3]))
-        fd = draw(Z.func_descs(sd, 'conj', depth))
+        if pick == 'power' and sd.get('weighting') is None and \
+                draw(st.integers(0, 2)) == 0:
+            # power-type separable sum (one functional object repeated) on
+            # purpose: bare, or under one derivation rule
+            fd = draw(_sepsum_power_descs(sd))
+        else:
+            fd = draw(Z.func_descs(sd, 'conj', depth))
         # non-positive left scaling: convex_conj must raise
-        if draw(st.integers(0, 24)) == 0:
+        k = draw(st.integers(0, 24))
+        if k == 0:
             fd = {'cls': 'leftscal', 's': draw(st.sampled_from([-1.0, -2.5])),
                   'f': fd, 'expect': 'ValueError'}
+        elif k == 1:
+            # scaling by zero: documented (f * 0)(x) = f(0), (0 * f)(x) = 0
+            which = draw(st.sampled_from(['leftscal', 'rightscal',
+                                          'rightscal+c']))
+            if which == 'rightscal+c':
+                # f(0) != 0 on purpose (most catalogue entries vanish at 0)
+                which = 'rightscal'
+                fd = {'cls': 'scalarsum', 'f': fd,
+                      'c': draw(st.sampled_from([1.0, -2.5, 0.5, 3.0]))}
+            fd = {'cls': which, 's': 0.0, 'f': fd}
     n = Z.space_dim(sd)
+    # pointwise step: few distinct values (so that every value is shared by
+    # several points), non-constant by construction
+    sv = draw(st.lists(st.sampled_from([0.5, 2.0, 1.25]), min_size=n,
+                       max_size=n))
+    if n >= 2 and len(set(sv)) == 1:
+        sv[-1] = 2.0 if sv[0] != 2.0 else 0.5
     return {'space': sd, 'func': fd,
+            # per-component steps of separable sums: pairwise distinct
+            'sigmas': draw(st.lists(Z.scal_pos(), min_size=3, max_size=3,
+                                    unique=True)),
+            'seqstyle': draw(st.sampled_from(['list', 'tuple', 'array'])),
+            'sigvec': sv,
             'probe_known': draw(st.integers(0, 3)) == 0,
             # numerical sup-oracle (the most expensive clause): every
             # eligible case in the thorough tier, one in three in quick
@@ -188,6 +275,35 @@ def _strategy(draw, tier):
             'sigma': draw(Z.scal_pos()),
             'xscale': draw(st.sampled_from([1.0, 1.0, 0.1, 10.0])),
             'yscale': draw(st.sampled_from([1.0, 1.0, 0.3, 3.0]))}
+
+
+@st.composite
+def _sepsum_power_descs(draw, sd):
+    """SeparableSum(f, n) / SeparableSum(f, ..., f) on the power space
+    ``sd``, bare or under one derivation rule whose proximal / conjugate
+    rule has to pass non-scalar steps through."""
+    n = Z.space_dim(sd)
+    inner = {'cls': 'sepsum_power', 'n': int(sd['power']),
+             'style': draw(st.sampled_from(['int', 'repeat'])),
+             'f': draw(Z.func_descs(sd['base'], 'conj',
+                                    draw(st.sampled_from([0, 0, 1])),
+                                    top=False))}
+    rule = draw(st.sampled_from(['none', 'none', 'translated', 'leftscal',
+                                 'rightscal', 'quadperturb', 'scalarsum']))
+    if rule == 'translated':
+        return {'cls': rule, 't': draw(Z.vec(n)), 'f': inner}
+    if rule == 'leftscal':
+        return {'cls': rule, 's': draw(Z.scal_pos()), 'f': inner}
+    if rule == 'rightscal':
+        return {'cls': rule, 's': draw(Z.scal_nz()), 'f': inner}
+    if rule == 'quadperturb':
+        return {'cls': rule, 'a': draw(st.sampled_from([0.0, 0.5, 2.0])),
+                'u': draw(st.one_of(st.none(), Z.vec(n))),
+                'c': draw(st.sampled_from([0.0, 1.0])), 'f': inner}
+    if rule == 'scalarsum':
+        return {'cls': rule, 'c': draw(st.sampled_from([1.0, -2.5])),
+                'f': inner}
+    return inner
 
 
 def strategy(tier):
@@ -262,7 +378,11 @@ def run_case(desc):
     xraw = np.asarray(desc['x'], float) * desc['xscale']
     yraw = np.asarray(desc['y'], float) * desc['yscale']
     zraw = np.asarray(desc['z'], float)
-    pts = (xraw, yraw, zraw, float(desc['sigma']))
+    steps = {'sigmas': [float(v) for v in desc.get('sigmas') or []],
+             'seqstyle': desc.get('seqstyle', 'list'),
+             'sigvec': (np.asarray(desc['sigvec'], float)
+                        if desc.get('sigvec') else None)}
+    pts = (xraw, yraw, zraw, float(desc['sigma']), steps)
     probe = bool(desc.get('probe_known', False))
     do_sup = bool(desc.get('sup', True))
     # children first (post-order): the innermost failing node names the
@@ -299,20 +419,27 @@ def known_region(B):
     return None
 
 
+def _cut_steps(steps, a, b):
+    sv = steps.get('sigvec')
+    return dict(steps, sigvec=None if sv is None else sv[a:b])
+
+
 def _post_order(B, pts):
-    x, y, z, sigma = pts
+    x, y, z, sigma, steps = pts
     if B.cls == 'sepsum':
         off = 0
         for k in B.children:
             m = k.geo.n
             for item in _post_order(k, (x[off:off + m], y[off:off + m],
-                                        z[off:off + m], sigma)):
+                                        z[off:off + m], sigma,
+                                        _cut_steps(steps, off, off + m))):
                 yield item
             off += m
     elif B.cls == 'sepsum_power':
         k = B.children[0]
         m = k.geo.n
-        for item in _post_order(k, (x[:m], y[:m], z[:m], sigma)):
+        for item in _post_order(k, (x[:m], y[:m], z[:m], sigma,
+                                    _cut_steps(steps, 0, m))):
             yield item
     elif B.cls == 'comp':
         pass
@@ -343,7 +470,7 @@ def _guarded(B, pts, do_sup, top, fd, probe):
 
 def _check_node(B, pts, top, fd, ctx, probe=True, do_sup=True):
     sd, space = B.sd, B.space
-    xraw, yraw, zraw, sigma = pts
+    xraw, yraw, zraw, sigma, steps = pts
     f, ref, geo = B.f, B.ref, B.geo
     n = geo.n
     eps = Z.space_eps(space)
@@ -413,6 +540,16 @@ def _check_node(B, pts, top, fd, ctx, probe=True, do_sup=True):
     except ValueError as e:
         if expect == 'ValueError':
             hit('not-offered')
+            # the proximal of a negatively scaled (non-linear) functional is
+            # rejected the same way ("not well-defined")
+            try:
+                f.proximal
+            except (ValueError, NotImplementedError):
+                pass
+            else:
+                raise Violation(sig('not-offered'),
+                                'proximal of a functional scaled by {} did '
+                                'not raise'.format(fd['s']))
             return Outcome('rejected', strata=strata)
         if B.region.get('linneg'):
             raise Violation(sig('linear-negative-scaling'),
@@ -687,6 +824,10 @@ def _check_node(B, pts, top, fd, ctx, probe=True, do_sup=True):
                     continue
             hit('fy-eq-ref')
             equality(xe, xf, ye, yf, 'fy-eq-ref', ccenter, dcenter)
+            # the sub-gradient is a point of dom f* by construction (for a
+            # thin dom f* the only way to meet it): value against the
+            # reference there, too
+            conj_vs_ref(ye, yf)
         for ye, yf in Ys:
             if ref.conj_residual(yf) is not None and \
                     ref.conj_residual(yf) > 0:
@@ -730,6 +871,40 @@ def _check_node(B, pts, top, fd, ctx, probe=True, do_sup=True):
                     continue
                 hit('fy-eq-libgrad')
                 equality(xe, xf, ye, yf, 'fy-eq-libgrad', ccenter,
+                         ref.center())
+
+    # the same with the roles exchanged: x = grad f*(y) is a sub-gradient
+    # of f* at y (the conjugate is a functional with a gradient of its own)
+    if f_eval and c_eval and ref is not None and not f32:
+        cgrad = None
+        try:
+            cgrad = fc.gradient
+        except (NotImplementedError, OpNotImplementedError, TypeError,
+                ValueError):
+            pass
+        if cgrad is not None:
+            for ye, yf in Ys:
+                cr = ref.conj_residual(yf)
+                margin = 1e3 * eps * (1.0 + rscale +
+                                      float(np.max(np.abs(yf))))
+                if ref.thin_conj_dom or (cr is not None and
+                                         not cr < -max(margin, 1e-6)):
+                    continue
+                rv_ = ref.conj(yf)
+                if rv_ is None or not np.isfinite(rv_):
+                    continue
+                try:
+                    xe = cgrad(ye)
+                except Exception:  # noqa  (gradients are C09's business)
+                    note('libgrad_failed')
+                    break
+                if xe not in space:
+                    break
+                xf = flat.flat(xe, space)
+                if not _moderate(xf, f32):
+                    continue
+                hit('fy-eq-libgrad-conj')
+                equality(xe, xf, ye, yf, 'fy-eq-libgrad-conj', ccenter,
                          ref.center())
 
     # ---- (4) biconjugate ----------------------------------------------------
@@ -872,6 +1047,228 @@ def _check_node(B, pts, top, fd, ctx, probe=True, do_sup=True):
                         r.tolist(), t, kind, sigma, xf.tolist(), a.tolist(),
                         b.tolist()))
 
+    # ---- (6b) non-scalar step sizes ------------------------------------------
+    res_dt = np.finfo(np.float32 if f32 else np.float64).resolution
+
+    def steps_tol(svf, xf, a, b):
+        return (256 * eps + 40 * res_dt) * _scal_factor(ref) * max(
+            1.0, float(np.max(svf)), 1.0 / float(np.min(svf))) * (
+            1.0 + rscale + float(np.max(np.abs(xf))) +
+            float(np.max(svf * np.abs(b))) + float(np.max(np.abs(a))))
+
+    def steps_moreau(P1, P2, svf, clause):
+        """prox_{s f}(x) + s prox_{f*/s}(x/s) = x with an entry-wise step
+        ``svf`` at the generic and at the first sparse point; returns the
+        evaluated rows for the clauses that compare with scalar steps."""
+        base = xs[-1] if len(xs) > 1 else xs[0]
+        rows = []
+        for kind, xv in [('generic', base)] + [
+                ('sparse', v) for v in _sparse_points(B, base)[:1]]:
+            xe, xf = X(xv)
+            xse, xsf = X(xf / svf)
+            try:
+                p1 = P1(xe)
+                p2 = P2(xse)
+            except NotImplementedError:
+                break
+            if p1 not in space or p2 not in space:
+                raise Violation(sig(clause),
+                                'proximal result not in the space')
+            a, b = flat.flat(p1, space), flat.flat(p2, space)
+            if not (np.all(np.isfinite(a)) and np.all(np.isfinite(b))):
+                if _overflow_prone(B, xf, float(np.max(svf)), rscale, f32) \
+                        or _overflow_prone(B, xf, float(np.min(svf)),
+                                           rscale, f32):
+                    note('moreau_overflow_range')
+                    continue
+                raise Violation(
+                    sig(clause + '-non-finite'),
+                    'non-finite proximal value at a {} point: prox_sf(x) = '
+                    '{}, prox_(f*/s)(x/s) = {}; steps={} x={}'.format(
+                        kind, a.tolist(), b.tolist(), svf.tolist(),
+                        xf.tolist()))
+            t = steps_tol(svf, xf, a, b)
+            r = a + svf * b - xf
+            finite_hits[0] += 1
+            if not np.all(np.abs(r) <= t):
+                raise Violation(
+                    sig(clause),
+                    'prox_sf(x) + s prox_(f*/s)(x/s) - x = {} (tol {:.3g}) '
+                    'at a {} point with entry-wise steps s={}; x={} p1={} '
+                    'p2={}'.format(r.tolist(), t, kind, svf.tolist(),
+                                   xf.tolist(), a.tolist(), b.tolist()))
+            rows.append((kind, xe, xf, xse, p1, p2, a, b, t))
+        return rows
+
+    def same_entries(got, exp, idx, t, clause, what):
+        if got.shape != exp.shape or not np.all(
+                np.abs(got[idx] - exp[idx]) <= t):
+            raise Violation(sig(clause), what + ': got {} expected {} '
+                            '(tol {:.3g})'.format(got[idx].tolist(),
+                                                  exp[idx].tolist(), t))
+
+    # (6a') the conjugate is a functional with a conjugate of its own: the
+    # decomposition also holds for the pair (f*, f**)
+    if pc is not None and sk != 'field' and n > 0:
+        try:
+            pcc = fc.convex_conj.proximal
+            Q1, Q2 = pc(sigma), pcc(1.0 / sigma)
+        except (NotImplementedError, OpNotImplementedError, ValueError,
+                TypeError):
+            Q1 = Q2 = None
+        if Q1 is not None and not _huber_prox_known(B):
+            if steps_moreau(Q1, Q2, np.full(n, float(sigma)), 'moreau-conj'):
+                hit('moreau-conj')
+
+    # (6b-1) SeparableSum: one step per summand (documented: "if sigma is a
+    # list of positive floats it distributes, too")
+    huber_known = _huber_prox_known(B)   # (reported by the clause above)
+    if pf is not None and pc is not None and steps.get('sigmas') and \
+            B.cls in ('sepsum', 'sepsum_power') and not huber_known:
+        sizes = _comp_sizes(B)
+        m = len(sizes)
+        kids = (B.children if B.cls == 'sepsum'
+                else [B.children[0]] * m)
+        pal = steps['sigmas']
+        sg = [pal[i % len(pal)] * (1 + i // len(pal)) for i in range(m)]
+        style = steps.get('seqstyle', 'list')
+        mk = {'list': list, 'tuple': tuple,
+              'array': lambda v: np.array(v, dtype=float)}[style]
+        svf = np.concatenate([np.full(k, v) for k, v in zip(sizes, sg)])
+        try:
+            P1 = pf(mk(sg))
+            P2 = pc(mk([1.0 / v for v in sg]))
+        except NotImplementedError:
+            P1 = P2 = None
+        rows = [] if P1 is None else steps_moreau(P1, P2, svf, 'moreau-seq')
+        if rows:
+            hit('moreau-seq')
+            strata.append('steps:seq-' + style)
+            if len(set(id(k) for k in kids)) < m:
+                strata.append('steps:seq-repeated-object')
+            # every component is the proximal of its own summand with its
+            # own step (the summands' proximals are judged at their nodes)
+            for kind, xe, xf, xse, p1, p2, a, b, t in rows:
+                for i in range(m):
+                    try:
+                        q1 = kids[i].f.proximal(sg[i])(xe[i])
+                        q2 = kids[i].f.convex_conj.proximal(
+                            1.0 / sg[i])(xse[i])
+                    except NotImplementedError:
+                        continue
+                    for got, expd, nm in ((p1[i], q1, 'prox_(s h)(x)'),
+                                          (p2[i], q2, 'prox_(h*/s)(x/s)')):
+                        g_ = flat.flat(got, space[i])
+                        e_ = flat.flat(expd, space[i])
+                        same_entries(
+                            g_, e_, slice(None), t, 'prox-parts',
+                            '{}[{}] with steps {} is not the proximal of '
+                            'summand {} with step {!r} ({} point)'.format(
+                                nm, i, sg, i, sg[i], kind))
+            hit('prox-parts')
+            # a scalar step is the constant sequence
+            try:
+                Pc, Ps = pf(mk([sigma] * m)), pf(sigma)
+                kind, xe, xf = rows[0][:3]
+                same_entries(flat.flat(Pc(xe), space),
+                             flat.flat(Ps(xe), space), slice(None),
+                             rows[0][8], 'prox-seq-const',
+                             'proximal with the constant step sequence {} '
+                             'differs from the scalar step'.format(
+                                 [sigma] * m))
+                hit('prox-seq-const')
+            except NotImplementedError:
+                pass
+
+    # (6b-2) one step per point (space element), wherever both factories
+    # take it (documented for L1 / squared L2 norms, their conjugates, the
+    # Moreau-identity default and the calculus rules on top of them)
+    sv = steps.get('sigvec')
+    if pf is not None and pc is not None and sk != 'field' and \
+            sv is not None and len(sv) == n and n > 0 and not huber_known:
+        se, svf = X(sv)
+        sie = X(1.0 / svf)[0]
+        try:
+            P1 = pf(se)
+            P2 = pc(sie)
+        except TypeError:
+            # float(sigma): this proximal takes scalar steps only
+            strata.append('steps:pointwise-not-offered')
+            P1 = P2 = None
+        except NotImplementedError:
+            P1 = P2 = None
+        rows = [] if P1 is None else steps_moreau(P1, P2, svf,
+                                                  'moreau-pointwise')
+        if rows:
+            hit('moreau-pointwise')
+            strata.append('steps:pointwise')
+            if _pointwise_separable(B):
+                # "the element defines a step size for each point": where
+                # the step equals v the result is that of the scalar step v
+                for v in sorted(set(svf.tolist())):
+                    idx = svf == v
+                    try:
+                        Pv, Qv = pf(float(v)), pc(1.0 / float(v))
+                    except NotImplementedError:
+                        break
+                    for kind, xe, xf, xse, p1, p2, a, b, t in rows:
+                        same_entries(
+                            a, flat.flat(Pv(xe), space), idx, t,
+                            'prox-pointwise-slice',
+                            'prox_(s f)(x) with point-wise steps {} at the '
+                            'points with step {!r} ({} point, x={})'.format(
+                                svf.tolist(), v, kind, xf.tolist()))
+                        same_entries(
+                            b, flat.flat(Qv(xse), space), idx, t,
+                            'prox-pointwise-slice',
+                            'prox_(f*/s)(x/s) with point-wise steps {} at '
+                            'the points with step {!r} ({} point, x={})'
+                            ''.format(svf.tolist(), v, kind, xf.tolist()))
+                else:
+                    hit('prox-pointwise-slice')
+
+    # ---- (6c) SeparableSum: indexing returns the summands -------------------
+    if B.cls in ('sepsum', 'sepsum_power') and f_eval:
+        sizes = _comp_sizes(B)
+        m = len(sizes)
+        kids = (B.children if B.cls == 'sepsum'
+                else [B.children[0]] * m)
+        xe, xf = Xs[0]
+        ye, yf = Ys[-1]
+
+        def close(u, v):
+            if np.isinf(u) or np.isinf(v):
+                return u == v
+            return abs(u - v) <= K_TOL * eps * max(n, 1) * (1 + abs(v))
+
+        for i in sorted(set((0, m - 1))):
+            fi = f[i]
+            u, v = _val(fi, xe[i], 'f[i](x_i)', sig), \
+                _val(kids[i].f, xe[i], 'f_i(x_i)', sig)
+            if not close(u, v):
+                raise Violation(sig('sepsum-getitem'),
+                                'h[{}](x_{}) = {!r} but summand {} gives '
+                                '{!r}'.format(i, i, u, i, v))
+        if m >= 2:
+            sub = f[1:]
+            u = _val(sub, xe[1:], 'h[1:](x[1:])', sig)
+            v = sum(_val(kids[i].f, xe[i], 'f_i(x_i)', sig)
+                    for i in range(1, m))
+            if not close(u, v):
+                raise Violation(sig('sepsum-getitem'),
+                                'h[1:](x[1:]) = {!r} but the summands 1.. '
+                                'add up to {!r}'.format(u, v))
+            if c_eval:
+                u = _val(sub.convex_conj, ye[1:], 'h[1:]*(y[1:])', sig)
+                v = sum(_val(kids[i].f.convex_conj, ye[i], 'f_i*(y_i)', sig)
+                        for i in range(1, m))
+                if not close(u, v):
+                    raise Violation(sig('sepsum-getitem'),
+                                    'h[1:]*(y[1:]) = {!r} but the conjugates '
+                                    'of the summands 1.. add up to '
+                                    '{!r}'.format(u, v))
+        hit('sepsum-getitem')
+
     # ---- (7) functionals are snapshots of their element-valued parameters ---
     if B.extra.get('params') and sk != 'field':
         _param_snapshot(B, f, Xs, Ys, sigma, sig, hit, note, f_eval, probe,
@@ -886,6 +1283,43 @@ def _check_node(B, pts, top, fd, ctx, probe=True, do_sup=True):
 RULES = {'leftscal', 'rightscal', 'rightvec', 'scalarsum', 'translated',
          'quadperturb', 'infconv', 'bregman', 'sepsum', 'sepsum_power',
          'sum', 'comp', 'product', 'quotient', 'moreau'}
+
+
+def _comp_sizes(B):
+    """Flat sizes of the summands of a separable sum."""
+    if B.cls == 'sepsum':
+        return [k.geo.n for k in B.children]
+    k = B.children[0].geo.n
+    return [k] * (B.geo.n // k if k else len(B.f.functionals))
+
+
+SEP_LEAVES = {'L1Norm', 'L2NormSquared', 'IndicatorZero', 'Constant', 'Zero',
+              'IndicatorBox', 'IndicatorNonnegativity', 'KL', 'KLConj',
+              'KLCE', 'KLCEConj', 'LinearForm', 'Simple'}
+SEP_RULES = {'leftscal', 'rightscal', 'rightvec', 'scalarsum', 'translated',
+             'quadperturb', 'bregman', 'sepsum', 'sepsum_power'}
+
+
+def _pointwise_separable(B):
+    """The functional is a sum over the points of the space of functions
+    of one point each (then a point-wise step acts point by point)."""
+    for b in B.nodes():
+        c = b.cls
+        if c in SEP_RULES or c in SEP_LEAVES:
+            continue
+        if c == 'LpNorm' and b.ref is not None and b.ref.p == 1:
+            continue
+        if c == 'IndicatorLpUnitBall' and b.ref is not None and \
+                b.ref.p == np.inf:
+            continue
+        if c == 'Huber' and b.geo.power is None:
+            continue
+        if c == 'QuadraticForm' and (
+                'qop' not in b.region or
+                b.region['qop'].startswith(('scaling', 'multiply'))):
+            continue
+        return False
+    return True
 
 
 def _huber_prox_known(B):
